@@ -13,7 +13,7 @@ RULE = ('Evaluation = one message returned by the real metar_msg(which) checked 
 ASSUMPTIONS = ['table-driven cases inject the table/flag/MSA into a processed chunk through private attributes',
                'heights in [0, 1e5) ft; parameter leaves keep their documented meaning']
 REQUIRED = ['msg:1groups', 'msg:2groups', 'msg:3groups', 'msg:NCD', 'msg:NSC', 'gt3_reportable',
-            'zero_okta_below_reported', 'base_eq_msa', 'fam:flat', 'fam:generic']
+            'zero_okta_below_reported', 'base_eq_msa', 'fam:flat', 'fam:generic', 'late_msa_edit']
 EXHAUSTIVE = {'quick': 'all okta tables (0..8) of <=3 layers x 2 height sets x all MSA positions x flag (table-driven part only)',
               'thorough': 'all okta tables (0..8) of <=4 layers x 2 height sets x all MSA positions x flag (table-driven part only)'}
 weight = _msg.weight
